@@ -57,7 +57,7 @@ func init() {
 		Explorer: "E1 deviation-bounded exhaustive input enumeration, recover() oracle + worker survival",
 		Rule: "each distinct string is one state, given to ValidateLicenses([s]), ExtractLicenses(s), Satisfies(s,[MIT]), Satisfies(MIT,[s]) (4 transitions); " +
 			"spaces: all token sequences <= L (loose+tight), all trees <= n leaves over term forms (full+minimal parens) with every byte prefix, every token edit at distance <= k, every single-byte substitution, " +
-			"all byte strings <= 2 over 256 values and <= m over a 40-byte alphabet, scaling families, slice shapes; non-trivial = distinct strings that are not valid expressions (malformed input is where a parser can fall over) ",
+			"every listed id against its neighbours by name (predecessor, successor, ids whose text is a prefix of it) as single terms with '+' on neither / either / both side; all byte strings <= 2 over 256 values and <= m over a 40-byte alphabet, scaling families, slice shapes; non-trivial = distinct strings that are not valid expressions (malformed input is where a parser can fall over) ",
 		Assumptions: []string{
 			"a panic is observed by recover() around the exported call; fatal runtime errors are observed as worker deaths and attributed through the journal",
 			"strings are deduplicated by a 64-bit hash per worker (collision probability < 1e-5 over the whole run)",
@@ -427,6 +427,45 @@ func c03Run(c *Ctx) {
 			return true
 		})
 	}
+
+	// (4c) the single-term comparison path for every listed id against the ids nearest to it by name
+	// (predecessor / successor in sorted order, ids whose text is a prefix of it), '+' on neither, either, both
+	nb := 0
+	for i, a := range T().AllLicenseIDs() {
+		if strings.HasSuffix(a, "+") {
+			continue
+		}
+		ns := idNeighbours(a)
+		nb += len(ns)
+		if !c.Mine(int64(i)) {
+			continue
+		}
+		if c.Expired() {
+			return
+		}
+		for _, b := range ns {
+			if !c.Begin("neighbours " + a + " / " + b) {
+				continue
+			}
+			c.Inc("states")
+			c.Inc("evaluations")
+			for _, x := range []string{a, a + "+"} {
+				for _, y := range []string{b, b + "+"} {
+					for _, pr := range [][2]string{{x, y}, {y, x}} {
+						c.Inc("transitions")
+						if r := Sat(pr[0], []string{pr[1]}); r.Panic != "" {
+							key := "Satisfies | " + r.Panic
+							k := c03Case{Fn: "Satisfies", Expr: pr[0], List: []string{pr[1]}}
+							c.Report(Violation{Kind: "c03.call", Class: key, Key: key, Size: len(pr[0]) + len(pr[1]), Msg: fmt.Sprintf("Satisfies panics on %q with allowed list [%q]: %s", pr[0], pr[1], r.Panic),
+								Case: mustJSON(k), GoTest: goCall(k)})
+							c.Outcome("panic")
+						}
+					}
+				}
+			}
+		}
+	}
+	c.Bound("name_neighbour_pairs", map[string]any{"ids": len(T().AllLicenseIDs()), "pairs": nb, "calls_per_pair": 8})
 
 	// (5) slice shapes
 	reps := []string{"MIT", "", " ", "(", "MIT WITH", "DocumentRef-a", "MIT AND ISC", "GPL-2.0+", "LicenseRef-x", "\xff"}
